@@ -2,16 +2,16 @@
 let mode_of s = if s = "C" then Compressed else Uncompressed
 let cls_of s =
   if s = "K" then CKeep else if s = "O" then COther else if s = "E" then CErr
-  else if String.length s > 1 && s.[0] = 'V' then CVer (n_of_int (int_of_string (String.sub s 1 (String.length s - 1))))
+  else if Stdlib.String.length s > 1 && s.[0] = 'V' then CVer (n_of_int (int_of_string (Stdlib.String.sub s 1 (Stdlib.String.length s - 1))))
   else failwith ("class " ^ s)
 (* f:<bodyhex>:<class>:<rep> *)
-let frame_of s = match String.split_on_char ':' s with
+let frame_of s = match Stdlib.String.split_on_char ':' s with
   | ["f"; h; c; r] -> (bytes_of_hex h, (n_of_int (int_of_string r), cls_of c))
   | _ -> failwith ("frame " ^ s)
 let ev_of s =
   if s = "Z" then Eof else if s = "T" then Elapsed
-  else if s.[0] = 'D' then Data (bytes_of_hex (String.sub s 1 (String.length s - 1)))
-  else if s.[0] = 'E' then RdErr (n_of_int (int_of_string (String.sub s 1 (String.length s - 1))))
+  else if s.[0] = 'D' then Data (bytes_of_hex (Stdlib.String.sub s 1 (Stdlib.String.length s - 1)))
+  else if s.[0] = 'E' then RdErr (n_of_int (int_of_string (Stdlib.String.sub s 1 (Stdlib.String.length s - 1))))
   else failwith ("event " ^ s)
 let show_out o = match o with
   | Wrote bs -> "W" ^ hex_of_bytes bs
@@ -21,29 +21,29 @@ let show_out o = match o with
       | RIo e -> Printf.sprintf "IO%d" (int_of_n e) | RTimeout -> "TO" | RDisconnected -> "DC"
       | RPanic -> "PANIC" | RBlocked -> "BLOCKED")
 let wev_of s =
-  if s = "p" then WPending else if s.[0] = 'a' then WAccept (nat_of_int (int_of_string (String.sub s 1 (String.length s - 1))))
-  else if s.[0] = 'f' then WFail (n_of_int (int_of_string (String.sub s 1 (String.length s - 1)))) else failwith ("wev " ^ s)
+  if s = "p" then WPending else if s.[0] = 'a' then WAccept (nat_of_int (int_of_string (Stdlib.String.sub s 1 (Stdlib.String.length s - 1))))
+  else if s.[0] = 'f' then WFail (n_of_int (int_of_string (Stdlib.String.sub s 1 (Stdlib.String.length s - 1)))) else failwith ("wev " ^ s)
 let show_wres r = match r with WOk -> "ok" | WErr e -> Printf.sprintf "err%d" (int_of_n e) | WBlocked -> "blocked"
-let rec split_bar acc l = match l with [] -> (List.rev acc, []) | "|" :: t -> (List.rev acc, t) | x :: t -> split_bar (x :: acc) t
+let rec split_bar acc l = match l with [] -> (Stdlib.List.rev acc, []) | "|" :: t -> (Stdlib.List.rev acc, t) | x :: t -> split_bar (x :: acc) t
 
-let handle (toks : string list) : string =
+let handle (toks : Stdlib.String.t list) : Stdlib.String.t =
   match toks with
   | "session" :: m :: v :: rest ->
       let (fs, evs) = split_bar [] rest in
-      let tab = List.map frame_of fs in
-      let tr = List.map ev_of evs in
-      String.concat " " (List.map show_out (run_session (mode_of m) (v = "1") tab tr))
+      let tab = Stdlib.List.map frame_of fs in
+      let tr = Stdlib.List.map ev_of evs in
+      Stdlib.String.concat " " (Stdlib.List.map show_out (run_session (mode_of m) (v = "1") tab tr))
   | "writeall" :: h :: ws ->
-      let ((d, r), _) = write_all (List.map wev_of ws) (bytes_of_hex h) in
+      let ((d, r), _) = write_all (Stdlib.List.map wev_of ws) (bytes_of_hex h) in
       hex_of_bytes d ^ " " ^ show_wres r
   | "decode" :: m :: h :: fs ->
       (* outcome class + number of bytes removed from the buffer *)
       let buf = bytes_of_hex h in
-      let tab = List.map frame_of fs in
+      let tab = Stdlib.List.map frame_of fs in
       (match x_decode (mode_of m) tab buf with
        | NeedMore -> "need 0"
-       | Got ((rep, _), rest) -> Printf.sprintf "got %d" (List.length buf - List.length rest)
-       | Bad rest -> Printf.sprintf "bad %d" (List.length buf - List.length rest)
+       | Got ((rep, _), rest) -> Printf.sprintf "got %d" (Stdlib.List.length buf - Stdlib.List.length rest)
+       | Bad rest -> Printf.sprintf "bad %d" (Stdlib.List.length buf - Stdlib.List.length rest)
        | FrameErr -> "frameerr 0"
        | DPanic -> "panic 0")
   | ["enclen"; m; l] -> show_res (fun n -> string_of_int (int_of_n n)) (encode_length (mode_of m) (nat_of_int (int_of_string l)))
